@@ -324,6 +324,35 @@ pub async fn run(out: &mut Out) {
     check_tree(out, &mut rng, &T::If(id("a"), id("b"), id("c")), 6);
     check_tree(out, &mut rng, &T::Tern(id("a"), id("b"), id("c")), 6);
     check_tree(out, &mut rng, &T::Let(vec![("a", T::Int(1))], id("a")), 6);
+    // ---- the level-0 forms (if / ?: / let) nested in every arm of every level-0 form, and chains three deep (the
+    // else-if ladder in both spellings): associativity of `?:` and of `if .. else`
+    {
+        let mk = |k: usize, a: Box<T>, b: Box<T>, c: Box<T>| -> T {
+            match k {
+                0 => T::If(a, b, c),
+                1 => T::Tern(a, b, c),
+                _ => T::Let(vec![("x", *a), ("y", *b)], c),
+            }
+        };
+        for outer in 0..3 {
+            for inner in 0..3 {
+                for pos in 0..3 {
+                    let leaf = |n: &'static str| id(n);
+                    let inn = Box::new(mk(inner, leaf("c"), leaf("d"), leaf("e")));
+                    let t = match pos {
+                        0 => mk(outer, inn, leaf("a"), leaf("b")),
+                        1 => mk(outer, leaf("a"), inn, leaf("b")),
+                        _ => mk(outer, leaf("a"), leaf("b"), inn),
+                    };
+                    check_tree(out, &mut rng, &t, 3);
+                    out.stat("level0_nesting");
+                    // three deep in the last arm, with a binary operator in the conditions
+                    let deep = mk(outer, Box::new(T::Bin(0, id("a"), id("b"))), leaf("c"), Box::new(mk(inner, Box::new(T::Bin(1, id("d"), id("e"))), leaf("f"), Box::new(mk(outer, leaf("g"), leaf("h"), leaf("i"))))));
+                    check_tree(out, &mut rng, &deep, 1);
+                }
+            }
+        }
+    }
     // ---- every ordered pair of binary operators in both shapes; unary/postfix against every binary
     for o1 in 0..BIN.len() {
         for o2 in 0..BIN.len() {
